@@ -78,9 +78,9 @@ def run(tier, seed, replay=None):
         sim_run = name == "simulate"
         nbeh = sum(1 for _ in open(f))
         # thorough: the configurations export up to 180 000 behaviours each; every n-th is replayed so that a configuration costs
-        # minutes, not hours (15 000 with plain readers, 4 000 under the race detector)
-        for label, bin_, every, procs in (("plain", binary, 1 if sim_run else (2 if tier == "quick" else max(1, nbeh // 15000)), vlib.NCPU // 2),
-                                          ("race", race, 3 if sim_run else (12 if tier == "quick" else max(4, nbeh // 4000)), vlib.NCPU // 2)):
+        # minutes, not hours (8 000 with plain readers, 2 000 under the race detector)
+        for label, bin_, every, procs in (("plain", binary, 1 if sim_run else (2 if tier == "quick" else max(1, nbeh // 8000)), vlib.NCPU // 2),
+                                          ("race", race, 3 if sim_run else (12 if tier == "quick" else max(4, nbeh // 2000)), vlib.NCPU // 2)):
             prefix = os.path.join(g.workdir, "reads-%s" % label)
             rep = vlib.run_harness(bin_, ["c07"] + common + ["-trace-out", prefix, "-every", str(every), "-procs", str(procs)], timeout=14000)
             if rep.get("extra", {}).get("read_error") or rep.get("extra", {}).get("shards_failed"):
